@@ -388,3 +388,62 @@ Print Assumptions C14_anchor_sound.
 Print Assumptions C14_anchored.
 Print Assumptions C14_unbalanced_diagnosed.
 Print Assumptions C14_unbalanced_examples.
+
+(** ---- Round 9 (pegfuel): generic termination of the PEG interpreter on the regenerated grammar ---- *)
+From Cicada Require Import Proofs.PegFuel Proofs.PegFuelInst.
+From Coq Require Lia.
+
+(** the static well-formedness check (no rule reaches itself without consuming input, repetition bodies and
+    WHITESPACE not nullable) holds of the regenerated locust grammar -- computed on every run *)
+Theorem C14_grammar_wf : wf_grammar l_grammar = true.
+Proof. exact l_grammar_wf. Qed.
+Check C14_grammar_wf : wf_grammar l_grammar = true.
+
+(** the generic theorem: a well-formed grammar never runs out of fuel above the explicit linear bound *)
+Theorem C14_ev_fuel_adequate : forall g, wf_grammar g = true ->
+  forall e a pos rest fuel, pexp_ok g e = true ->
+  (peg_bound g (List.length rest) <= fuel)%nat -> ev g fuel e a pos rest <> PFuel.
+Proof. exact ev_fuel_adequate. Qed.
+Check C14_ev_fuel_adequate : forall g, wf_grammar g = true ->
+  forall e a pos rest fuel, pexp_ok g e = true ->
+  (peg_bound g (List.length rest) <= fuel)%nat -> ev g fuel e a pos rest <> PFuel.
+
+Theorem C14_peg_fuel_adequate : forall start a pos s fuel,
+  (peg_bound l_grammar (List.length s) <= fuel)%nat -> ev l_grammar fuel (PRef start) a pos s <> PFuel.
+Proof. exact l_peg_fuel_adequate. Qed.
+Check C14_peg_fuel_adequate : forall start a pos s fuel,
+  (peg_bound l_grammar (List.length s) <= fuel)%nat -> ev l_grammar fuel (PRef start) a pos s <> PFuel.
+
+(** the fuel parse_from uses (64 + 24 n) is smaller than the generic bound; this is all that is missing *)
+Theorem C14_parse_from_fuel_gap : forall start s,
+  parse_from l_grammar start s = PFuel -> (peg_fuel s < peg_bound l_grammar (List.length s))%nat.
+Proof. exact l_parse_from_fuel_gap. Qed.
+Check C14_parse_from_fuel_gap : forall start s,
+  parse_from l_grammar start s = PFuel -> (peg_fuel s < peg_bound l_grammar (List.length s))%nat.
+
+(** C14_parse_total at the explicit bound: no fuel disjunct *)
+Theorem C14_parse_total_at_bound : forall b, wfp_block b = true -> csf_block b = true ->
+  forall fuel, (peg_bound l_grammar (List.length (render_block b)) <= fuel)%nat -> parse_ok_at fuel b.
+Proof. exact parse_total_at_bound. Qed.
+Check C14_parse_total_at_bound : forall b, wfp_block b = true -> csf_block b = true ->
+  forall fuel, (peg_bound l_grammar (List.length (render_block b)) <= fuel)%nat -> parse_ok_at fuel b.
+
+(** C14_parse_total proper (parse_ok, i.e. at peg_fuel) is NOT proved; what is proved: *)
+Theorem C14_parse_total_partial_gap : forall b, wfp_block b = true -> csf_block b = true ->
+  parse_ok b \/ (peg_fuel (render_block b) < peg_bound l_grammar (List.length (render_block b)))%nat.
+Proof. exact parse_total_or_gap. Qed.
+Check C14_parse_total_partial_gap : forall b, wfp_block b = true -> csf_block b = true ->
+  parse_ok b \/ (peg_fuel (render_block b) < peg_bound l_grammar (List.length (render_block b)))%nat.
+
+(** non-vacuity: the bound is a small linear function, and a witness script parses at it *)
+Example C14_peg_bound_linear : forall n, peg_bound l_grammar (S n) = (peg_bound l_grammar n + g_A l_grammar)%nat.
+Proof. intro n. unfold peg_bound. rewrite PeanoNat.Nat.mul_succ_r. Lia.lia. Qed.
+Example C14_parse_total_at_bound_wit : parse_ok_at (peg_bound l_grammar (List.length (render_block wit1))) wit1.
+Proof. apply C14_parse_total_at_bound; [vm_compute; reflexivity | vm_compute; reflexivity | apply le_n]. Qed.
+
+Print Assumptions C14_grammar_wf.
+Print Assumptions C14_ev_fuel_adequate.
+Print Assumptions C14_peg_fuel_adequate.
+Print Assumptions C14_parse_from_fuel_gap.
+Print Assumptions C14_parse_total_at_bound.
+Print Assumptions C14_parse_total_partial_gap.
